@@ -63,6 +63,17 @@ P = {
  "C20": dict(level="fault_enumeration", technique="runtime monitoring with fault injection: FileSystem wrapper fails the k-th underlying call, for every k of each sampled case",
              text="Fault enumeration: for each sampled (configuration, pre-state, operation) the fault-free run counts the N calls into the wrapped filesystems; for every k in 1..N the pre-state is rebuilt and the k-th call (second dimension: the k-th handle read/write/flush) fails with an injected I/O error. Ok is accepted only with the fault-free full effect/value, Err with any state; panics and mutating calls on lower layers are violations. Complete over k per case; the cases themselves are sampled.",
              ref="§2.5, §4 C20"),
+ "C15": dict(technique="runtime monitoring: lock-step differential sync vs async twins behind a Pending-injecting AsyncFileSystem wrapper, poll-schedule sweep of the walk_dir stream",
+             text="Exploration: one generated history is executed on a sync configuration and on 4-8 async twins whose every AsyncFileSystem call and directory-stream item returns Pending according to a schedule; outcomes, error classes, return values (read-handle scripts, read_dir sets, walk_dir sets and order) and full snapshots after every step must agree. For small trees all 2^M pending patterns of the walk_dir stream are enumerated (exhaustive for those trees).",
+             ref="§2.6, §4 C15"),
+ "C16": dict(technique="runtime monitoring: hook-driven baton scheduler (sweep/random/PCT) + offline serialisability checker over recorded concurrent histories, structural invariant on the final state",
+             text="Exploration: generated and directed small concurrent programs on one MemoryFS run under a scheduler that decides which thread passes the next lock acquisition (all schedules for programs that fit the cap, random + PCT otherwise); each distinct (results, final tree) outcome is checked against every program-order-respecting sequential execution of the same library calls on a fresh MemoryFS; final tree well-formedness, panics and deadlocks are monitored.",
+             ref="§2.7, §4 C16",
+             note="Trusted base: the scheduler and checker code of the harness; the verif-hooks yield points (one in front of every lock acquisition of src/impls/memory.rs) — a critical section that is split without adding a yield point is only preempted in free-running/Miri modes. Holds for the programs and schedules explored only; exhaustive only for the programs counted under programs_swept_exhaustively, at hook granularity."),
+ "C17": dict(technique="runtime monitoring: baton scheduler sweep on memory-backed configurations + free-running stress with delays injected at the PhysicalFS::create_dir hook",
+             text="Exploration: tuples of overlapping paths created concurrently with create_dir_all by 2-4 threads; every call must succeed and every prefix must be a directory afterwards, on MemoryFS and adapters over it under every explored schedule (all schedules where the sweep fits), and on PhysicalFS and adapters over it under real preemption with injected delays.",
+             ref="§4 C17",
+             note="Trusted base: scheduler code, verif-hooks yield points. Holds for the tuples and schedules explored only; exhaustive only for tuples counted under tuples_swept_exhaustively, at hook granularity; physical rounds are samples of real interleavings."),
 }
 
 NOT_YET = {
